@@ -12,7 +12,7 @@ ENGINES = [
     {'name': 'verus-contracts', 'path': 'check', 'serves_properties': ['C01', 'C02', 'C04', 'C05', 'C06', 'C10', 'C13', 'C14'],
      'kind_free_text': 'Verus 0.2026.09.13: requires/ensures/invariant/decreases inserted into functions copied byte-for-byte from /repo/src on every run; one verifier process per unit'},
 ]
-ENGINES.append({'name': 'kani-contracts', 'path': 'vlib/kani.py', 'serves_properties': ['C02', 'C04', 'C09', 'C15'],
+ENGINES.append({'name': 'kani-contracts', 'path': 'vlib/kani.py', 'serves_properties': ['C01', 'C02', 'C04', 'C05', 'C06', 'C09', 'C13', 'C15'],
                 'kind_free_text': 'Kani 0.68 / CBMC 6.11: function contract (proof_for_contract) and loop-free or input-length-bounded harnesses over full symbolic domains, on a scratch crate = /repo/src + appended cfg(kani) modules'})
 ENGINES.append({'name': 'native-bounded', 'path': 'replay/hunter.rs', 'serves_properties': ['C04', 'C05', 'C09', 'C10', 'C15'],
                 'kind_free_text': 'BOUNDED stand-in (never counted as proved) for string code neither verifier reaches (from_fen, play_out_position): seeded native runs of the real functions against a rules oracle; also the counterexample hunter / replay tool for every property'})
